@@ -303,6 +303,63 @@ func burst(ctx context.Context, op map[string]any) (string, string) {
 	return "ok", ""
 }
 
+// churn: rounds in which a Store and a Remove of the SAME entry overlap while two readers list the type; once everyone
+// has stopped, the listing and a load must agree about that entry (whichever of the two writes came last).
+func churn(ctx context.Context, op map[string]any) (string, string) {
+	rounds := 3000
+	if v, ok := op["rounds"].(float64); ok {
+		rounds = int(v)
+	}
+	t := fmt.Sprint(op["t"])
+	st, err := inmem.New(ctx)
+	if err != nil {
+		return "error", err.Error()
+	}
+	if _, err := st.List(ctx, msgFor(t, "", "")); err != nil {
+		return "ok", "" // not a listable type
+	}
+	for r := 0; r < rounds; r++ {
+		id := "c"
+		_ = st.Store(ctx, msgFor(t, id, "v1"))
+		start := make(chan struct{})
+		stop := make(chan struct{})
+		var writers, readers sync.WaitGroup
+		for i := 0; i < 2; i++ {
+			readers.Add(1)
+			go func() {
+				defer readers.Done()
+				<-start
+				for {
+					select {
+					case <-stop:
+						return
+					default:
+						_, _ = st.List(ctx, msgFor(t, "", ""))
+					}
+				}
+			}()
+		}
+		writers.Add(2)
+		go func() { defer writers.Done(); <-start; _ = st.Store(ctx, msgFor(t, id, "v2")) }()
+		go func() { defer writers.Done(); <-start; _ = st.Remove(ctx, msgFor(t, id, "")) }()
+		close(start)
+		writers.Wait()
+		close(stop)
+		readers.Wait()
+		ids, lerr := st.List(ctx, msgFor(t, "", ""))
+		loaded := st.Load(ctx, msgFor(t, id, "")) == nil
+		listed := false
+		for _, x := range ids {
+			listed = listed || x == id
+		}
+		if lerr == nil && listed != loaded {
+			return "split", fmt.Sprintf("round %d: after an overlapping store and remove of %q everything has stopped: listed=%v, loads=%v", r, id, listed, loaded)
+		}
+		_ = st.Remove(ctx, msgFor(t, id, ""))
+	}
+	return "ok", ""
+}
+
 func Run(bh Behaviour, seed int64) ([]Line, error) {
 	ctx := context.Background()
 	backend := fmt.Sprint(bh.Cfg["backend"])
@@ -322,6 +379,9 @@ func Run(bh Behaviour, seed int64) ([]Line, error) {
 			}
 			if fmt.Sprint(op["op"]) == "Burst" {
 				ln.Res, ln.Err = burst(ctx, op)
+				ln.Val = "absent"
+			} else if fmt.Sprint(op["op"]) == "Churn" {
+				ln.Res, ln.Err = churn(ctx, op)
 				ln.Val = "absent"
 			} else {
 				ln.Res, ln.Val, ln.Ids, ln.Err = exec(ctx, st, op)
